@@ -566,6 +566,14 @@ def _guard_form(tree):
                     body[k + 1:k + 1] = rest
                     continue
                 last = k == len(body) - 1
+                # if c: B1; B2...; return Y          if not c: return X
+                # return X                     ->    B1; B2...; return Y        (the one-statement way out is the guard)
+                if not st.orelse and len(st.body) >= 2 and isinstance(st.body[-1], ast.Return) and tail == 'func' \
+                        and k == len(body) - 2 and isinstance(body[-1], ast.Return) \
+                        and not any(isinstance(x, (ast.Return, ast.Raise)) for s_ in st.body[:-1] for x in ast.walk(s_)):
+                    g = ast.copy_location(ast.If(test=_not(st.test), body=[body[-1]], orelse=[]), st)
+                    body[k:] = [g] + st.body
+                    continue
                 if not st.orelse and len(st.body) >= 2 and not _ends_in_jump(st.body):
                     if tail == 'loop' and last:
                         g = ast.copy_location(ast.If(test=_not(st.test), body=[ast.copy_location(ast.Continue(), st)], orelse=[]), st)
@@ -771,6 +779,24 @@ def _propagate_pure(fn):
             break
 
 
+def _ifelse_to_ifexp(tree):
+    """N15: if c: x = A else: x = B   ->   x = A if c else B   (both arms exactly one plain assignment to the same name)"""
+    for parent in ast.walk(tree):
+        for fld in ('body', 'orelse', 'finalbody'):
+            body = getattr(parent, fld, None)
+            if not (isinstance(body, list) and body and isinstance(body[0], ast.stmt)):
+                continue
+            for k, st in enumerate(body):
+                if isinstance(st, ast.If) and len(st.body) == 1 and len(st.orelse) == 1 \
+                        and all(isinstance(x, ast.Assign) and len(x.targets) == 1 and isinstance(x.targets[0], ast.Name) for x in (st.body[0], st.orelse[0])) \
+                        and st.body[0].targets[0].id == st.orelse[0].targets[0].id \
+                        and not any(isinstance(y, (ast.Await, ast.Yield, ast.YieldFrom, ast.NamedExpr)) for x in (st.body[0], st.orelse[0]) for y in ast.walk(x.value)):
+                    new = ast.Assign(targets=[st.body[0].targets[0]], value=ast.copy_location(
+                        ast.IfExp(test=st.test, body=st.body[0].value, orelse=st.orelse[0].value), st))
+                    body[k] = ast.copy_location(new, st)
+    return tree
+
+
 def normalize(tree, relpath=None):
     _unannotate(tree)
     _split_tuple_assign(tree)
@@ -782,6 +808,8 @@ def normalize(tree, relpath=None):
     if not os.environ.get('VERIF_NO_N12'):
         _guard_form(tree)
     _unnegate(tree)
+    if not os.environ.get('VERIF_NO_N15'):
+        _ifelse_to_ifexp(tree)
     _reaug(tree)
     for cls in [c for c in ast.walk(tree) if isinstance(c, ast.ClassDef)]:
         # fields (re)bound outside __init__: everything else is configuration fixed at construction
